@@ -12,6 +12,8 @@ def C(text, note, ref):
     return ("model_checking", text, note + " " + TRUST, TECH, ref)
 
 CLAIMED = {
+ "C01": C("Server.serve end to end on a valid startup packet with symbolic user/database, a symbolic password-phase message (any type byte, body of arbitrary bytes, possibly cut by EOF), a validator that accepts, rejects or fails, and arbitrary continuation bytes; a monitor over the captured output and the callback trace decides: in every non-accepting case no AuthenticationOk/ParameterStatus/ReadyForQuery is sent, no middleware/parser/statement runs, serve returns an error and the connection is closed; a wrong password is reported with SQLSTATE class 28; the validator sees exactly the client's database, user and password.",
+          "Bounds: password body <= 2/4 bytes, continuation <= 5/8 bytes, limit 32. Startup packet well-formed.", "DESIGN.md §7 C01"),
  "C02": C("Bounded symbolic model checking of buffer.Writer and every backend message builder against an independent strict grammar (type, length = 4+body, body parses exactly): framing kernel under arbitrary operation sequences and transport write failures, ErrorResponse for solver-chosen decorator nestings, RowDescription/DataRow/CopyInResponse/CommandComplete for symbolic columns, values and tags, and the same grammar applied to the whole capture of the session-level harnesses with symbolic client input.",
           "Bounds: op sequences <= 4 (quick) / 5, decorator depth 2/3, <= 2 columns, strings <= 2 bytes, histories K=2/3. User-supplied text is assumed NUL-free; pgx codecs are modelled by contract.", "DESIGN.md §7 C02"),
  "C03": C("Bounded symbolic model checking of buffer.Reader's real code: for every client byte stream of up to 5+N bytes, every declared length, every segmentation (symbolic short reads) and every leftover pre-state, ReadTypedMsg equals an independent reference framing function; for every body of up to N bytes and every sequence of accessor calls, the accessors equal an independent cursor and never panic.",
@@ -20,14 +22,22 @@ CLAIMED = {
           "Bounds: query text <= 2/3 bytes (ASCII), parser returns error/0/1/2 statements, statement scripts {row+Complete, error, Complete, row+error}. pgx codecs modelled by contract.", "DESIGN.md §7 C05"),
  "C06": C("Histories of K extended-query messages over known and unknown names run through the real command loop body; a black-box reference automaton written from the protocol text decides each step from client messages, captured replies and the callback trace: designated reply per message, exactly one ReadyForQuery per Sync and none otherwise, one ErrorResponse then silence and no callbacks until Sync, unknown names are errors and the connection stays up.",
           "Bounds: K=3 (quick) / 4 (thorough, with simple Query interleaved), names from {'', 'a'}, well-formed bodies, parser {error, one statement}, statement {row+Complete, error}.", "DESIGN.md §7 C06"),
+ "C07": C("Histories of Parse/Bind/Describe/Execute/Close over names that are SYMBOLIC strings of length 0-1 (the solver decides when two names coincide, including the unnamed one) against a reference of association lists; a re-parse/re-bind skeleton over eight symbolic names; two connections served by one Server through the real serve path using the same symbolic names.",
+          "Bounds: K=3/4 operations, each followed by Sync; names of length <= 1. Concurrent interleaving of connections is C15's lemma; here connections are served one after the other.", "DESIGN.md §7 C07"),
+ "C08": C("handleBind on an ARBITRARY body of up to N bytes against a reference decoder written from the protocol text: accepted iff not truncated, parameters byte-identical, NULL (-1) distinguished from empty, formats by the none/one/n rule, no portal on rejection; Execute hands exactly those parameters to the statement; result-format codes determine Describe-portal's announced codes and the format handed to the encoder per column; Describe-statement announces exactly the declared OIDs; Parameter.Scan hands (oid, format, value) to the decoder.",
+          "Bounds: N=14/17 bytes, counts <= 2, 1-2(3) columns. pgx codecs by contract; TextCodec.DecodeValue executed from pgx's own code.", "DESIGN.md §7 C08"),
  "C09": C("Columns.Define/Write and Column.Write for 1-2(3) columns with solver-chosen formats and source values from the codec-contract menu (untyped nil, nil pointer, invalid nullable, string, []byte, *string, unencodable): the emitted DataRow equals the reference framing, every NULL is -1 without payload, non-NULL empty is length 0, unencodable and wrong-arity rows emit nothing.",
           "The clause 'for every supported column type, decoded by an independent decoder' is decided only up to 'what the codec returns is what is framed': pgx's reflection-planned codecs are dependency code and cannot be encoded (stated not-applicable part). Bounds: <= 2/3 columns, values <= 1/2 bytes.", "DESIGN.md §7 C09"),
  "C10": C("The limit arithmetic is decided over the FULL range: every limit 1..2^31-1 and every 32-bit declared length in one solver query per assertion (size-exceeded iff declared-4 > L or declared < 4; header-only read; no allocation; error carries size and limit), NewReader for all 2^64 settings, Slurp for every limit/size/segmentation in the bound, and sessions with an oversized message followed by a normal one.",
           "Bounds: H10a continues past the check only for bodies <= N=3/6; Slurp L<=2/3, size <= 3L+2; 64-bit int.", "DESIGN.md §7 C10"),
+ "C12": C("Server.serve on a startup packet whose parameter area is N arbitrary bytes (duplicates, empty values, missing terminators are solver-reachable) with 0-2 configured global parameters and an optional version string, against a reference parse: callbacks see exactly the client's pairs, the reply is AuthenticationOk, one ParameterStatus per configured key plus the built-ins with the stated values (session_authorization = user), then exactly one ReadyForQuery(idle); the configured map is not modified; a CancelRequest first or after an SSLRequest is closed without reply or callback.",
+          "Bounds: N=8/10. Map iteration modelled as insertion order (the statement does not order ParameterStatus messages). Cross-connection leakage is C15.", "DESIGN.md §7 C12"),
  "C17": C("The error value is built by a solver-chosen nesting of D decorators (code, severity, hint, detail, source, constraint, fmt %w wrapping, none) with symbolic payload bytes; the emitted ErrorResponse is parsed by an independent strict grammar and compared field for field with a reference walking the same choices (outermost wins, defaults ERROR/XXUUU, each field at most once, line as decimal text); nil error -> FATAL/XX000.",
           "Bounds: D=2/3, payloads 1-2 non-NUL bytes, source line 0..999. strconv.Itoa and fmt.Errorf are modelled.", "DESIGN.md §7 C17"),
  "C18": C("H18a is a one-step inductive lemma on the reader's message window with a fully symbolic header (offset, length, capacity and requested size all range over 0..2^31): the next window never overlaps bytes exposed through an earlier one, so data handed to callbacks is never overwritten, for histories of any length.",
           "H18a touches no elements (header-only). Retained-view harness H18b is registered when built.", "DESIGN.md §7 C18"),
+ "C19": C("Server.serve with m middlewares registered through the real option functions (failing position symbolic) followed by a solver-chosen command history: every middleware runs once, in registration order, after AuthenticationOk and the ParameterStatus messages and before the first ReadyForQuery, each seeing its predecessors' context values; a failure ends the connection with no ReadyForQuery and no command callback; every parser/statement call's context carries all middleware values, client and server parameters, remote address and type map, and is cancelled when the command ends while the session context is not; Terminate runs the hook once (also without a hook: no panic) and closes the connection.",
+          "Bounds: m <= 2/3, K=2/3 commands from {Q, Parse, Bind, Execute, Terminate}. Not asserted: that nothing pipelined behind Terminate is looked at (the statement does not forbid it).", "DESIGN.md §7 C19"),
 }
 
 def main():
